@@ -14,11 +14,12 @@ static void log_handler (const char *msg, void *data)
 {
 	(void) data;
 	g_log_count++;
-	if (g_logbuf.len < (1u << 16)) sb_printf (&g_logbuf, "%s\n", msg);
+	if (g_verbose) vlog ("  [qslog] %s\n", msg);
+	if (g_logbuf.len + strlen (msg) + 2 < (1u << 16)) sb_printf (&g_logbuf, "%s\n", msg);
 }
 void qsx_log_reset (void)
 {
-	if (!g_logbuf_init) { sb_init (&g_logbuf); g_logbuf_init = 1; }
+	if (!g_logbuf_init) { sb_init (&g_logbuf); sb_reserve (&g_logbuf, (1u << 16) + 8192); g_logbuf_init = 1; }
 	g_logbuf.len = 0; g_logbuf.s[0] = 0; g_log_count = 0;
 }
 int qsx_log_has (const char *needle) { return g_logbuf_init && strstr (g_logbuf.s, needle) != NULL; }
